@@ -4,6 +4,7 @@ import NodisVerif.Model.Handler2
 import NodisVerif.Model.RespReader
 import NodisVerif.Model.Conn
 import NodisVerif.Model.Val
+import NodisVerif.Model.ProtoWire
 /-
   The regenerated tie. `/verif/extract` (go/ast) turns table-shaped facts of the source text into Lean
   definitions (`NodisVerif.Generated.*`, a file written anew by every check run); the predicates below
@@ -258,5 +259,20 @@ def writersSignal (w : List (String × Bool × Bool)) : Bool := w.all (·.2.1) &
 
 /-- ... and the change feed -/
 def writersNotify (w : List (String × Bool × Bool)) : Bool := w.all (·.2.2) && w.length ≥ 60
+
+/-! ## the change records on the wire (C20: Model/ProtoWire.lean) -/
+
+/-- the table the model (`ProtoWire.opTable`) and the proofs (`Props/C20.lean`: `decode_encode`,
+    `decodeOp_encodeOp`, `encode_injective`) are written with, in the extractor's vocabulary -/
+def expectedPatchOps : List (Nat × String × List (Nat × String)) :=
+  ProtoWire.opTable.map fun (t, name, sch) => (t, name, sch.map fun (no, k) => (no, k.name))
+
+/-- `DecodeOp`'s switch joined with the message structs of op.pb.go is the model's table; the OpType
+    constants are 0 (none) … 36 without gaps, so every constant but OpTypeNone has a case; an empty input
+    is refused by a guard in front of the switch and the default case returns (the repair 12a5893) -/
+def patchOk (ops : List (Nat × String × List (Nat × String))) (types : List (String × Nat)) (shape : List String) : Bool :=
+  ops == expectedPatchOps &&
+  types.map (·.2) == List.range 37 && types.head? == some ("OpTypeNone", 0) &&
+  (shape.any (·.startsWith "guard:")) && shape.contains "default:return"
 
 end NodisVerif.SourceFacts
